@@ -447,7 +447,8 @@ PROPS = {
                        "Record::compose_canonical write the fields in wire order; the validator's RrsigExt::signed_data sorts the records by "
                        "canonical RDATA and appends RRSIG_RDATA and, per record, the owner reconstructed from the Labels field (RFC 4035 "
                        "5.3.2: `*.` + the rightmost Labels labels when the answer owner is longer), type, class, the ORIGINAL TTL, RDLENGTH and "
-                       "canonical RDATA. Lemmas over these contracts: what signed_data reconstructs for the RRset handed back in any order, "
+                       "canonical RDATA; wildcard_closest_encloser answers Some(the rightmost Labels labels) exactly when the owner has more labels "
+                       "than the Labels field. Lemmas over these contracts: what signed_data reconstructs for the RRset handed back in any order, "
                        "with any TTL, with owners in any letter case or expanded from the wildcard owner, is the octet string that was "
                        "signed. The value of the Labels field: ToName::rrsig_label_count (real text, unit nameorder, every name "
                        "representation). Dnskey::key_tag against an independent transcription of RFC 4034 Appendix B (Kani, bounded, key "
@@ -455,7 +456,7 @@ PROPS = {
                        "covered by C04 (units nameorder, nsec3order); canonical RDATA per type by C05.",
         "not_covered": "The cryptography (ring/openssl sign and verify: asm/FFI; modelled as 'a signature over exactly these octets'), DS "
                        "digests, tamper rejection beyond what the native search samples, sign_rrset's own sort and the zone-level signing "
-                       "loops (sign_sorted_zone_records: key selection, skipping of glue and delegations), wildcard_closest_encloser. "
+                       "loops (sign_sorted_zone_records: key selection, skipping of glue and delegations). "
                        "Dnskey::key_tag could not be taken to Verus (u16::from_be_bytes / <[u8]>::try_into have no Verus specification), "
                        "so the u32 accumulator bound for 65535-octet keys is not proved, only checked up to 48 octets.",
         "assumptions": [
